@@ -107,6 +107,35 @@ struct Watchdog {
     static void disarm() { alarm(0); }
 };
 
+// Sanitizer reports as an oracle: redirect ASan/UBSan report output to a memfd and ask after each case whether
+// anything was written.  Build with -fsanitize-recover=address,undefined (and run with ASAN_OPTIONS=halt_on_error=0)
+// so that a report does not end the process.  UBSan reports each source location once per process, so the first
+// case reaching a defect is the one reported; a replay in a fresh process reproduces it.
+#if defined(__SANITIZE_ADDRESS__) || defined(VF_SANITIZED)
+#include <sys/mman.h>
+struct SanCapture {
+    int fd = -1; off_t last = 0;
+    // stderr itself is redirected into a memfd (the sanitizer runtimes write their reports to fd 2)
+    void init() { if (getenv("VF_NO_SANCAPTURE")) return; fd = memfd_create("vf_san", 0); if (fd >= 0) dup2(fd, 2); }
+    bool dirty(std::string& text) {
+        if (fd < 0) return false;
+        off_t end = lseek(fd, 0, SEEK_END);
+        if (end == last) return false;
+        size_t n = size_t(end - last); if (n > 1500) n = 1500;
+        text.resize(n);
+        ssize_t r = pread(fd, &text[0], n, last); if (r < 0) r = 0; text.resize(size_t(r));
+        last = end;
+        // keep the first informative line
+        size_t p = text.find("runtime error"); if (p == std::string::npos) p = text.find("ERROR: AddressSanitizer");
+        if (p != std::string::npos) { size_t b = text.rfind('\n', p); b = (b == std::string::npos) ? 0 : b + 1; size_t e = text.find('\n', p); text = text.substr(b, e == std::string::npos ? std::string::npos : e - b); }
+        return true;
+    }
+};
+#else
+struct SanCapture { void init() {} bool dirty(std::string&) { return false; } };
+#endif
+inline SanCapture& san() { static SanCapture s; return s; }
+
 inline std::vector<std::string> split(const std::string& s, char sep) {
     std::vector<std::string> o; std::string cur;
     for (char c : s) { if (c == sep) { o.push_back(cur); cur.clear(); } else cur.push_back(c); }
